@@ -1,6 +1,6 @@
 (* Properties_C20.v — property C20 (a fixed seed reproduces the random streams).  Statements only. *)
-From Coq Require Import List NArith Bool Arith.
-From OmplV Require Import SeedModel SeedProofs.
+From Coq Require Import List NArith Bool Arith Floats.
+From OmplV Require Import SeedModel SeedProofs RngModel RngProofs.
 Import ListNotations.
 Local Open Scope N_scope.
 
@@ -38,6 +38,30 @@ Theorem C20_reseed_reproduces_stream :
     draws E V K draw (set_local_seed E seedE V s st) ks = draws E V K draw (rng_fresh E seedE V s) ks.
 Proof. intros. apply reseed_reproduces. Qed.
 
+(* ---- the generator behind a local seed (RngModel: std::mt19937 and std::uniform_real_distribution as libstdc++ 12 implements them;
+   the check compares its draws with ompl::RNG's bit for bit).  The stream of the i-th generator created after setSeed(s): *)
+Definition ith_generator_stream (s : N) (i n : nat) : option (list float) :=
+  match nth_error (local_seeds s (S i)) i with Some (Seed v) => Some (rng_uniform01_stream v n) | _ => None end.
+(* it depends only on the global seed and on i, however many generators are created afterwards *)
+Theorem C20_ith_generator_stream_depends_on_seed_and_index :
+  forall s i n m, match nth_error (local_seeds s (S i + m)) i with Some (Seed v) => Some (rng_uniform01_stream v n) | _ => None end = ith_generator_stream s i n.
+Proof.
+  intros s i n m. unfold ith_generator_stream. rewrite <- (C20_ith_seed_depends_on_seed_and_index s (S i) m).
+  rewrite nth_error_firstn_lt; [reflexivity|apply Nat.lt_succ_diag_r].
+Qed.
+(* every draw leaves the generator with its 624 words and the position inside them (no draw reads outside the state) *)
+Theorem C20_generator_state_shape_kept : forall s, mt_ok s -> mt_ok (snd (mt_next s)).
+Proof. exact mt_next_ok. Qed.
+Theorem C20_generator_state_shape_after_seeding : forall sd, mt_ok (mt_seed sd).
+Proof. exact mt_seed_ok. Qed.
+(* setLocalSeed forgets the history: uniform01 / uniformBool / uniformInt draws after it are those of a fresh generator *)
+Theorem C20_mt_reseed_reproduces_draws : forall (old : mt) sd pat, mt_draws pat (mt_set_local_seed old sd) = rng_draws sd pat.
+Proof. exact reseed_reproduces_stream. Qed.
+
+Print Assumptions C20_ith_generator_stream_depends_on_seed_and_index.
+Print Assumptions C20_generator_state_shape_kept.
+Print Assumptions C20_generator_state_shape_after_seeding.
+Print Assumptions C20_mt_reseed_reproduces_draws.
 Print Assumptions C20_seed_sequence_independent_of_initial_state.
 Print Assumptions C20_ith_seed_depends_on_seed_and_index.
 Print Assumptions C20_local_seed_range.
@@ -47,3 +71,8 @@ Print Assumptions C20_reseed_reproduces_stream.
 (* the transcription reproduces the values observed from the real library (libstdc++ 12) *)
 Example C20_seed_1 : local_seeds 1 4 = [Seed 523834656; Seed 303609453; Seed 703111751; Seed 571238571].
 Proof. vm_compute. reflexivity. Qed.
+
+(* the transcription of the generator meets the C++ standard's check value (10000th output of mt19937 seeded with 5489) and
+   reproduces what the first generator after setSeed(1) draws in the real library *)
+Example C20_mt19937_known_answer : nth (N.to_nat 9999) (raw_stream (N.to_nat 10000) (mt_seed 5489)) 0 = 4123659995.
+Proof. exact mt19937_known_answer. Qed.
